@@ -1,4 +1,5 @@
 import SasLexer.Spec.Basic
+import SasLexer.Spec.ChanTable
 import SasLexer.Chars
 /-!
 # C07 — string payloads hold the unquoted value and partition the literal buffer
@@ -44,6 +45,9 @@ Clauses
 * `ranges-valid-ordered-cover`: the string payload ranges in token order are valid slices of
   `lits`, `a ≤ b`, the first starts at 0, each starts where the previous one ended, the last
   ends at the end of `lits` (no range ⇒ `lits` is empty).
+* `payload-kind-table`: the context-free table `payKindOK` of `Spec/ChanTable.lean` (string payloads only on the
+  string families, integers only on `IntegerLiteral`/`MacroVarResolve`, floats only on the float literals, and those
+  numeric types never without their number); proved for the model, all inputs (`model_payload_kinds`).
 * `only-string-types-carry-str-payload`: a `StringLiteral a b` payload occurs only on
   tokens of the four families.
 -/
@@ -233,6 +237,7 @@ def C07 (s : List Char) (d : Dump) : Verdict :=
         && adjacentFrom (utf8Len d.lits) 0 ranges)
   ++ clause "only-string-types-carry-str-payload" (its.all fun it =>
       (strRange? it.tok.payload).isNone || it.contentValue?.isSome)
+  ++ clause "payload-kind-table" (d.toks.all fun t => payKindOK t.ty t.payload)
 
 end Spec
 end SasLexer
